@@ -228,7 +228,7 @@ Proof. exact strong_total_outside_overflow. Qed.
 Print Assumptions C03_full_total.
 
 (* the hypothesis is what the ASP parser guarantees: every program text the parser accepts yields a
-   program whose variables have non-empty names (AspImage: variables match [A-Z][A-Za-z0-9]*) *)
+   program whose variables have non-empty names (AspImage: an upper-case letter followed by letters and digits) *)
 Theorem C03_parsed_programs_named :
   forall (s : string) (p : program), AspParse.parse_program_text s = AspParse.POk p -> program_vars_named p.
 Proof. exact parsed_program_vars_named. Qed.
